@@ -265,6 +265,55 @@ func runC06(tr *Trace, sc *Script, rec *Recorder, scratch string) *Violation {
 		w.Revive()
 	}
 	nodeRef = &node
+	// Mechanism of recorded finding F20: the downloader asks for a range again when the header of one of its event
+	// blocks no longer matches the logs it holds (a reorg in between); after MaxRetryCountBlockHashMismatch = 5 such
+	// repeats in a row it returns nil, which its caller takes for "no events in this range" and moves on - also past
+	// finalized blocks. Counted here: consecutive answers to the SAME range in which a header differed from the
+	// chain the logs were taken from.
+	type rangeKey struct{ a, b uint64 }
+	var curRange rangeKey
+	rangeHashes := map[uint64]common.Hash{}
+	mismatchesInARow := 0
+	var gaveUp []rangeKey
+	mismatchSeen := false
+	w.OnRPC = func(label, method, desc string, mode int, result any) {
+		if label != "dl" {
+			return
+		}
+		switch method {
+		case "FilterLogs":
+			r, ok := result.([2]uint64)
+			if !ok || mode != replyOK {
+				return
+			}
+			k := rangeKey{r[0], r[1]}
+			if k != curRange {
+				curRange, mismatchesInARow = k, 0
+			} else if !mismatchSeen {
+				mismatchesInARow = 0 // the same range asked again for another reason
+			}
+			mismatchSeen = false
+			for n := range rangeHashes {
+				delete(rangeHashes, n)
+			}
+			for n := r[0]; n <= r[1] && n <= chain.HeadNum(); n++ {
+				rangeHashes[n] = chain.Canon[n].Hash
+			}
+		case "HeaderByNumber":
+			b, ok := result.(*FBlock)
+			if !ok || mode != replyOK {
+				return
+			}
+			if h, in := rangeHashes[b.Num()]; in && h != b.Hash && !mismatchSeen {
+				mismatchSeen = true
+				mismatchesInARow++
+				if mismatchesInARow > 5 {
+					gaveUp = append(gaveUp, curRange)
+					rec.Stats.Inc("downloader_gave_up_on_a_range_after_six_hash_mismatches")
+				}
+			}
+		}
+	}
 	if v := start(false); v != nil {
 		return v
 	}
@@ -300,6 +349,9 @@ func runC06(tr *Trace, sc *Script, rec *Recorder, scratch string) *Violation {
 
 	var prevStored []storedBlock
 	replacedEver := false
+	// rows that appeared BELOW the block the store had already reached (the downloader hands over a block at or below
+	// the last processed one when it starts while the followed tip is below it: the root of recorded finding F16)
+	insertedBelowTip := map[uint64]bool{}
 	// trackedRows: what the detector's durable table holds right now (the harness's own read: not a statement of the node)
 	trackedRows := func() map[storedBlock]bool {
 		out := map[storedBlock]bool{}
@@ -375,6 +427,19 @@ func runC06(tr *Trace, sc *Script, rec *Recorder, scratch string) *Violation {
 		for _, s := range cur {
 			if s.Num != 0 && !chain.IsCanonical(s.Num, s.Hash) {
 				replacedEver = true
+			}
+		}
+		if len(prevStored) > 0 {
+			top := prevStored[len(prevStored)-1].Num
+			was := map[storedBlock]bool{}
+			for _, s := range prevStored {
+				was[s] = true
+			}
+			for _, s := range cur {
+				if !was[s] && s.Num != 0 && s.Num < top && have[storedBlock{Num: top, Hash: prevStored[len(prevStored)-1].Hash}] {
+					insertedBelowTip[s.Num] = true
+					rec.Stats.Inc("rows_inserted_below_the_last_processed_block")
+				}
 			}
 		}
 		prevStored = cur
@@ -782,6 +847,45 @@ func runC06(tr *Trace, sc *Script, rec *Recorder, scratch string) *Violation {
 						sig = "c06/tracked-hash-overwritten-by-repeat-delivery"
 					}
 					db.Close()
+				}
+			}
+			// variant of the second mechanism (F16b): the block handed over at or below the last processed one was stored
+			// as a row below the stale tip; after the rewind of the stale tip the syncer resumes right above that row
+			// and never reads the new fork's blocks below it
+			if firstBad == 0 && len(insertedBelowTip) > 0 {
+				have := map[uint64]bool{}
+				for _, sb := range cur {
+					have[sb.Num] = true
+				}
+				tip := tagValue(chain, syncTag)
+				for n := uint64(1); n <= tip; n++ {
+					if mb, ok := chain.Canon[n].Payload.(MBlock); ok && len(mb.Events) > 0 && !have[n] {
+						for m := range insertedBelowTip {
+							if n < m && have[m] {
+								sig = "c06/resumed-above-unsynced-blocks-after-delivery-below-the-tip"
+							}
+						}
+						break
+					}
+				}
+			}
+			// third recorded mechanism (F20): a canonical block with events is missing and lies in a range the downloader
+			// gave up on after six hash mismatches in a row
+			if firstBad == 0 && len(gaveUp) > 0 {
+				have := map[uint64]bool{}
+				for _, sb := range cur {
+					have[sb.Num] = true
+				}
+				tip := tagValue(chain, syncTag)
+				for n := uint64(1); n <= tip; n++ {
+					if mb, ok := chain.Canon[n].Payload.(MBlock); ok && len(mb.Events) > 0 && !have[n] {
+						for _, g := range gaveUp {
+							if n >= g.a && n <= g.b {
+								sig = "c06/range-skipped-after-hash-mismatch-retries"
+							}
+						}
+						break
+					}
 				}
 			}
 		}
